@@ -580,7 +580,8 @@ def gen_boundsblind(r, kind, outside_goal=False):
 # its satisfiesBounds / isValid filter (grep "sampleGoal(" under src/ompl/geometric/planners): with a goal state outside
 # the bounds and a collision-only validity checker they grow the tree out of the box (known finding F310)
 DIRECT_GOAL_SAMPLERS = {"RRT", "RRTstar", "InformedRRTstar", "SORRTstar", "RRTsharp", "RRTXstatic", "LazyRRT", "TRRT", "LBTRRT",
-                        "LazyLBTRRT", "RLRT", "EST", "ProjEST", "KPIECE1", "PDST", "STRIDE", "SST", "pRRT"}
+                        "LazyLBTRRT", "RLRT", "EST", "ProjEST", "KPIECE1", "PDST", "STRIDE", "SST", "pRRT",
+                        "CForest"}       # CForest: its worker planners are RRTstar instances
 # bounds-blind runs per planner in the quick tier; SST takes Monte-Carlo steps of random length along a sampled direction
 # (interpolation parameter step / d > 1 extrapolates), so it gets more of the large-range / corner-goal configurations
 BLIND_RUNS = {"SST": 36}
